@@ -303,11 +303,11 @@ def parse_run(unit, res, text, gen_path, cmd, rc, out, err, wall):
     return ur
 
 
-def verify_unit(unit, tpl_path, repo_root, workdir, canary=False, rlimit=None, seed=None, timeout=900):
+def verify_unit(unit, tpl_path, repo_root, workdir, canary=False, rlimit=None, seed=None, timeout=900, extra=None):
     name = unit + ('__canary' if canary else '') + ('__s%d' % seed if seed is not None else '')
     gen_path = os.path.join(workdir, name + '.rs')
     res, text = generate(tpl_path, repo_root, gen_path, canary=canary)
-    cmd, rc, out, err, wall = run_verus(gen_path, rlimit=rlimit, seed=seed, timeout=timeout)
+    cmd, rc, out, err, wall = run_verus(gen_path, rlimit=rlimit, seed=seed, timeout=timeout, extra=extra)
     ur = parse_run(unit, res, text, gen_path, cmd, rc, out, err, wall)
     if rc == 124:
         ur.undecided.append('verus timeout after %ds' % timeout)
